@@ -96,9 +96,14 @@ def run(tier):
                         rep.violation("program=%s query=%s: %s" % (pr.text.strip().replace("\n", " "), pr.qtext, d),
                                       {"vector": pr.vec, "diff": d})
             continue
+        lost_from = None      # after a panic the harness starts a new machine: the helper predicates are gone for the rest of the batch
         for j in range(n):
             pr = progs[(bi, j)]
             out = r["res"][2 + 2 * j]
+            if lost_from is not None:
+                continue
+            if isinstance(out, dict) and "panic" in out:
+                lost_from = j + 1
             fs = set()
             for c in pr.vec["prog"]:
                 features(terms.from_tla(c["b"]), fs)
@@ -109,6 +114,22 @@ def run(tier):
             if d:
                 rep.violation("program=%s query=%s: %s" % (pr.text.strip().replace("\n", " "), pr.qtext, d),
                               {"vector": pr.vec, "diff": d, "got": out})
+        if lost_from is not None and lost_from < n:
+            single = [{"id": "%d-%d" % (bi, j), "fresh": True, "timeout": 20,
+                       "steps": [job["steps"][0], job["steps"][1 + 2 * j], job["steps"][2 + 2 * j]]} for j in range(lost_from, n)]
+            rs = run_jobs(single, workers=8, job_timeout=20)
+            for j in range(lost_from, n):
+                rr = rs.get("%d-%d" % (bi, j), {"crash": "missing"})
+                pr = progs[(bi, j)]
+                rep.case("rerun-after-panic|" + pr.vec["status"])
+                if "crash" in rr:
+                    rep.violation("crash(%s) program=%s query=%s" % (rr["crash"], pr.text.strip(), pr.qtext),
+                                  {"vector": pr.vec, "crash": rr["crash"]})
+                else:
+                    d = pr.compare(rr["res"][2], MAXANS)
+                    if d:
+                        rep.violation("program=%s query=%s: %s" % (pr.text.strip().replace("\n", " "), pr.qtext, d),
+                                      {"vector": pr.vec, "diff": d})
     step = max(1, len(vecs) // 5)
     for v in vecs[::step]:
         pr = Prog(v, "0", RENAME)
